@@ -185,6 +185,9 @@ def plan_failures(plan, repo):
                 f["replica"] = ridx
                 fails.append(f)
         info["histories"].append(abstract_history(plan, results))
+        oks = [r for r in results if r.get("ok")]
+        if oks:
+            info["clock_ticks"] = info.get("clock_ticks", 0) + oks[-1].get("clock_ticks", 0)
         rep = plan["replicas"][ridx]
         if ridx > 0 or rep.get("isolate"):
             key = "fault_fired.replica_isolated_interpreters" if rep.get("isolate") else \
